@@ -276,6 +276,21 @@ func (c *Ctx) Finish(start time.Time) int {
 	for k, v := range c.extra {
 		cov[k] = v
 	}
+	if c.NotCovered == nil {
+		cov["not_covered"] = []string{}
+	}
+	if c.info == nil {
+		cov["information"] = []string{}
+	}
+	if c.Assumptions == nil {
+		c.Assumptions = []string{"go/types and go/ssa (x/tools v0.50.0) represent the program faithfully"}
+	}
+	if c.NotCovered == nil {
+		c.NotCovered = []string{}
+	}
+	if c.info == nil {
+		c.info = []string{}
+	}
 	ev := map[string]any{
 		"property_id": c.Property,
 		"tier":        c.Tier,
